@@ -837,6 +837,15 @@ func (c vcase) String(doc []byte) string {
 	return sb.String()
 }
 
+// schemaFiles: the schema files of the run, as a caller of the SDK facade may hold them (facade.go)
+func (c vcase) schemaFiles() []runFile {
+	out := []runFile{{"the root schema text", c.nm.root, []byte(c.schema)}}
+	for _, t := range c.types {
+		out = append(out, runFile{"the text of " + t[0], c.nm.typeFile(t[0]), []byte(t[1])})
+	}
+	return out
+}
+
 func validateWithDeadline(c vcase, doc []byte) (pos int, desc string, msg string, timeout bool) {
 	pos, desc, msg, _, timeout = validateObserved(c, doc)
 	return
@@ -1005,6 +1014,9 @@ func runValidatePos(rep *vh.Report) {
 		// the rendered message points into the document: file name, line number, source line and caret by the reference
 		if cm := renderComplaint(obs, c.docName, p.buf); cm != "" {
 			rep.AddDiff(vh.Diff{Component: "C17-validate-pos", Input: in, Impl: cm + " | " + obs.String(), Model: fmt.Sprintf("the message shows file %q, the line, left-trimmed source line and caret of offset %d of the document", c.docName, want)})
+			continue
 		}
+		// the same error through the SDK facade, converted for the document file, for every schema file and for companions
+		reportFacade(rep, in, obs, runFile{"the document text", c.docName, p.buf}, c.schemaFiles())
 	}
 }
